@@ -404,7 +404,7 @@ def run(F, R, tier):
     okc = len(convs) >= 4
     for cf in convs:
         tabc = SR.Table(F, cf, opaque=r"to_string$|ToString::to_string$", rule=r7)
-        pn = (F.hir(cf)["params"][0].get("name") if F.hir(cf) and F.hir(cf)["params"] else None) or "other"
+        pn = SY.param_name(F, cf, 0, "other")
         for q in tabc.paths:
             v = q.ret
             inner = v.f.get("0") if isinstance(v, SY.St) else (v.fields[0] if isinstance(v, SY.V) and v.fields else v)
